@@ -32,6 +32,10 @@ def run(ctx):
     ctx.guarded("R08.1", "respond", lambda: respond_mirror(ctx))
     ctx.guarded("R08.1", "flush", lambda: mirror(ctx, "R08.1", srv.FLUSH, ("write",)))
     ctx.guarded("R08.3", "switch", lambda: switch_conditions(ctx))
+    ctx.rule("R08.4", "one try_read / try_write per readiness notification (a second write on a full socket would report EAGAIN and close a healthy connection); served streams are non-blocking")
+    from .c09 import single_io, nonblocking
+    ctx.guarded("R08.4", "single-io", lambda: single_io(ctx, "R08.4"))
+    ctx.guarded("R08.4", "nonblocking", lambda: nonblocking(ctx, "R08.4"))
 
 
 def wrappers(ctx):
